@@ -210,7 +210,7 @@ func c16Current(r *R) {
 		cl := r.p.Func("transport/graphsync", "dtChannel", "cancel$1")
 		if cl != nil {
 			if s := r.one("C16.4", cl, "(github.com/ipfs/go-graphsync.GraphExchange).Cancel"); s != nil {
-				got := r.d.Of(core.Arg(s.Common(), 1))
+				got := r.dOf(s.(ssa.Instruction)).Of(core.Arg(s.Common(), 1))
 				r.c.Check(got == "*c.requestID", "C16.4", "cancel/id", r.p.InstrPos(s), "cancels the request id the channel held", "cancel acts on "+got)
 			}
 		}
